@@ -894,6 +894,37 @@ func TestC19(t *testing.T) {
 		}
 	}
 	en.done(true)
+	// selectors of one invocation that continue one another's text (a longer name, a wider regexp, one more clause):
+	// every base x continuation on a fixed table, in both orders, with and without -v
+	er := enumPart(t, c19Prop, st, "related-selector-pairs")
+	{
+		q := func(kv ...string) [][]string {
+			out := [][]string{}
+			for i := 0; i+1 < len(kv); i += 2 {
+				out = append(out, []string{kv[i], kv[i+1]})
+			}
+			return out
+		}
+		table := []Feat{{Key: "gene", Loc: lrg(0, 2), Quals: q("a", "a")}, {Key: "gene", Loc: lrg(1, 3), Quals: q("ab", "a")}, {Key: "gene", Loc: lrg(2, 4), Quals: q("a", "b")},
+			{Key: "gene", Loc: lrg(3, 5), Quals: q("a", "ab")}, {Key: "CDS", Loc: lrg(4, 6), Quals: q("a", "a")}, {Key: "gene", Loc: lrg(5, 7), Quals: q("b", "a")},
+			{Key: "gene", Loc: lrg(6, 8), Quals: q("note", "x")}, {Key: "gene", Loc: lrg(7, 9)}, {Key: "gene", Loc: lrg(8, 10), Quals: q("a", "a", "b", "b")},
+			{Key: "src", Loc: lrg(9, 11), Quals: q("a", "ba")}, {Key: "CDS", Loc: lrg(10, 12), Quals: q("ab", "b")}}
+		for _, base := range []string{"gene/a", "/a", "gene/a=a", "/a=a", "/=a", "gene", "CDS/a", "gene/a=^a$", "/a=^a", "gene/note"} {
+			for _, ext := range []string{"b", "a", "b=a", "=a", "=b", "*", "|b", "/a", "/b", "/=b", "$"} {
+				if _, err := gts.Selector(base + ext); err != nil {
+					continue
+				}
+				for _, sels := range [][]string{{base, base + ext}, {base + ext, base}} {
+					for _, inv := range []bool{false, true} {
+						if !er.try(c19Case{Mode: "cli-select", Table: table, Sels: sels, Invert: inv}) {
+							return
+						}
+					}
+				}
+			}
+		}
+	}
+	er.done(true)
 	e := enumPart(t, c19Prop, st, "order-triples")
 	pool := []Loc{lpt(1), lpt(2), lbt(2), lrg(1, 3), lprg(1, 3, true, false), lprg(1, 3, true, true), lrg(2, 4), lrg(1, 4), lam(1, 3),
 		lco(lrg(1, 3)), ljn(lrg(0, 1), lrg(3, 5)), ljn(lrg(3, 5), lrg(0, 1)), lor(lpt(0), lrg(2, 4)), lco(ljn(lrg(1, 2), lrg(4, 5))), ljn(lpt(1), lco(lrg(3, 4)))}
